@@ -19,37 +19,37 @@ SIDE_NOTE = "stateful stream: each case starts with a reset op; non-trivial = th
 PIPE_RULE = "abstract cases (service configuration, Via/Route/Record-Route stacks, dialogs, TCP connections) rendered to bytes and pushed through the real pipeline inside the real loop goroutine; predictions derived from the abstract case are checked on the implementation; non-trivial = message decoded and processed; distinct by op line"
 
 PROPS = {
-    "C05": {"lean": ["C05"], "streams": [{"name": "rr", "gen": "rr"}],
+    "C05": {"lean": ["C05"], "expected": ["K05"], "streams": [{"name": "rr", "gen": "rr"}],
             "rule": "exhaustive add/remove/dispatch sequences (canonical address order) plus seeded random histories on the real RoundRobinBackend; " + SIDE_NOTE},
-    "C18": {"lean": ["C18"], "expected": ["Routes"], "streams": [{"name": "route", "gen": "route"}],
+    "C18": {"lean": ["C18"], "expected": ["Routes", "K18"], "streams": [{"name": "route", "gen": "route"}],
             "rule": "exhaustive route tables over the pattern universe x all hosts, each lookup repeated 50 times, plus random larger tables; " + SIDE_NOTE},
-    "C19": {"lean": ["C19"], "streams": [{"name": "res", "gen": "res"}],
+    "C19": {"lean": ["C19"], "expected": ["K19"], "streams": [{"name": "res", "gen": "res"}],
             "rule": "exhaustive and random resolution-outcome histories fed to addressResolved with real UDP/TCP backends; " + SIDE_NOTE},
-    "C15": {"lean": ["C15"], "streams": [{"name": "pins", "gen": "pins"}],
+    "C15": {"lean": ["C15"], "expected": ["K15"], "streams": [{"name": "pins", "gen": "pins"}],
             "rule": "seeded pin/lookup/terminate/wait histories on the real DialogBasedBackend under a virtual clock; " + SIDE_NOTE},
-    "C20": {"lean": ["C20"], "streams": [{"name": "send", "gen": "send"}],
+    "C20": {"lean": ["C20"], "expected": ["K20"], "streams": [{"name": "send", "gen": "send"}],
             "rule": "exhaustive fault patterns: cached connection script x reconnectable path x listener up/down per message, sequences of 1-3 messages, for TCPClientTransport, FailOverClientTransport and TCPBackend; " + SIDE_NOTE},
     "C01": {"lean": ["C01"], "expected": ["Tables"], "also": ["C11"],
             "streams": [{"name": "pipe", "gen": "pipe"}, {"name": "frame", "gen": "frame", "args": {"focus": "frame"}}],
             "rule": PIPE_RULE},
-    "C02": {"lean": ["C02"], "expected": ["Tables"], "streams": [{"name": "pipe", "gen": "pipe", "args": {"focus": "responses"}}, {"name": "pipe2", "gen": "pipe", "args": {"focus": "dialogs"}}],
+    "C02": {"lean": ["C02"], "expected": ["Tables", "K02"], "streams": [{"name": "pipe", "gen": "pipe", "args": {"focus": "responses"}}, {"name": "pipe2", "gen": "pipe", "args": {"focus": "dialogs"}}],
             "rule": PIPE_RULE},
     "C03": {"lean": ["C03"], "streams": [{"name": "pipe", "gen": "pipe", "args": {"focus": "requests"}}],
             "rule": PIPE_RULE},
     "C04": {"lean": ["C04"], "also": ["C15"],
             "streams": [{"name": "pipe", "gen": "pipe", "args": {"focus": "dialogs"}}, {"name": "pins", "gen": "pins"}],
             "rule": PIPE_RULE},
-    "C06": {"lean": ["C06"], "streams": [{"name": "pipe", "gen": "pipe", "args": {"focus": "requests"}}],
+    "C06": {"lean": ["C06"], "expected": ["K06"], "streams": [{"name": "pipe", "gen": "pipe", "args": {"focus": "requests"}}],
             "rule": PIPE_RULE},
-    "C07": {"lean": ["C07"], "expected": ["Wiring", "Ctors"], "streams": [{"name": "pipe", "gen": "pipe", "args": {"focus": "requests"}}, {"name": "pipe2", "gen": "pipe", "args": {"focus": "responses"}}, {"name": "wire", "gen": "wire", "args": {"focus": "c07"}}], "also": ["C12", "C02"],
+    "C07": {"lean": ["C07"], "expected": ["Wiring", "Ctors", "K07"], "streams": [{"name": "pipe", "gen": "pipe", "args": {"focus": "requests"}}, {"name": "pipe2", "gen": "pipe", "args": {"focus": "responses"}}, {"name": "wire", "gen": "wire", "args": {"focus": "c07"}}], "also": ["C12", "C02"],
             "rule": PIPE_RULE},
-    "C12": {"lean": ["C12"], "streams": [{"name": "pipe", "gen": "pipe", "args": {"focus": "tcp"}}],
+    "C12": {"lean": ["C12"], "expected": ["K12"], "streams": [{"name": "pipe", "gen": "pipe", "args": {"focus": "tcp"}}],
             "rule": PIPE_RULE},
     "C13": {"lean": ["C13"], "streams": [{"name": "pipe", "gen": "pipe", "args": {"focus": "requests"}}],
             "rule": PIPE_RULE},
     "C17": {"lean": ["C17"], "expected": ["Tables", "Wiring"], "streams": [{"name": "pipe", "gen": "pipe", "args": {"focus": "twins"}}],
             "rule": PIPE_RULE},
-    "C16": {"lean": ["C16"], "expected": ["Tables"], "streams": [{"name": "dialog", "gen": "dialog"}],
+    "C16": {"lean": ["C16"], "expected": ["Tables", "K16"], "streams": [{"name": "dialog", "gen": "dialog"}],
             "rule": "exhaustive assignments of Call-ID, tags and URIs from small alphabets x both orientations x request/response x decorations, plus random long identifiers; oracle: bijection between abstract dialog keys and implementation identifiers; non-trivial = identifier produced"},
     "C11": {"lean": ["C11"], "expected": ["Reader"], "streams": [{"name": "frame", "gen": "frame", "args": {"focus": "frame"}}],
             "rule": "generated message sequences under scripted segmentations (exhaustive single/double cuts of short streams, random multi-cuts down to 1-byte segments) through ParseMessage on one bufio.Reader; non-trivial = at least one message extracted; distinct by op line"},
